@@ -1163,4 +1163,211 @@ theorem parse_render_lemma (lk : Env) (ls : List Line) (hwf : WF ls = true) :
   | err e m => rfl
   | panic s => rfl
 
+/-! ## B.11 unterminated quotes -/
+
+theorem valEndIndex_le (src : Str) : valEndIndex src ≤ src.length := by
+  unfold valEndIndex
+  have := indexFunc_spec (fun x => x == '\n') src 0
+  cases hi : indexFunc (fun x => x == '\n') src 0 with
+  | none => simp
+  | some k => rw [hi] at this; simp only [Nat.sub_zero] at this; exact this.2.1
+
+/-- items followed by the end of input (possibly after a lone backslash): the loop runs off the end -/
+theorem quotedLoop_unterminated (q : Char) (hq : q ≠ '\\') (src t : Str) (ht : t = [] ∨ t = ['\\']) :
+    ∀ (items : List QItem) (i : Nat) (acc : Str),
+    items.all (QItem.wf q) = true → src.drop i = renderItems q items ++ t →
+    quotedLoop q src ((renderItems q items).length + t.length) i false acc = .unterminated
+  | [], i, acc, _, hd => by
+    simp only [renderItems, List.nil_append] at hd
+    rcases ht with rfl | rfl
+    · simp [renderItems, quotedLoop]
+    · obtain ⟨h1, _⟩ := getElem?_of_drop hd
+      have hb : ('\\' != q) = true := by simpa using fun e => hq e.symm
+      have e : (renderItems q ([] : List QItem)).length + ['\\'].length = 0 + 1 := by simp [renderItems]
+      rw [e, quotedLoop, h1]
+      simp [hb, quotedLoop]
+  | .chr c :: items, i, acc, hw, hd => by
+    simp only [List.all_cons, Bool.and_eq_true, QItem.wf, bne_iff_ne, ne_eq] at hw
+    simp only [renderItems, QItem.render, List.cons_append, List.nil_append] at hd
+    obtain ⟨h1, h2⟩ := getElem?_of_drop hd
+    have hc1 : (c != q) = true := by simpa using hw.1.1
+    have hc2 : (c == '\\') = false := by simpa using hw.1.2
+    have e : (renderItems q (.chr c :: items)).length + t.length =
+        ((renderItems q items).length + t.length) + 1 := by
+      simp [renderItems, QItem.render]; omega
+    rw [e, quotedLoop, h1]
+    simp only [hc1, hc2, if_true, Bool.and_false, Bool.false_eq_true, if_false]
+    exact quotedLoop_unterminated q hq src t ht items (i + 1) _ hw.2 h2
+  | .quote :: items, i, acc, hw, hd => by
+    simp only [List.all_cons, Bool.and_eq_true] at hw
+    simp only [renderItems, QItem.render, List.cons_append, List.nil_append] at hd
+    obtain ⟨h1, h2⟩ := getElem?_of_drop hd
+    obtain ⟨h3, h4⟩ := getElem?_of_drop h2
+    have hb : ('\\' != q) = true := by simpa using fun e => hq e.symm
+    have e : (renderItems q (.quote :: items)).length + t.length =
+        (((renderItems q items).length + t.length) + 1) + 1 := by
+      simp [renderItems, QItem.render]; omega
+    rw [e, quotedLoop, h1]
+    simp only [hb, if_true, Bool.not_false, Bool.true_and, beq_self_eq_true]
+    rw [quotedLoop, h3]
+    simp only [bne_self_eq_false, Bool.false_eq_true, if_false, if_true]
+    exact quotedLoop_unterminated q hq src t ht items (i + 1 + 1) _ hw.2 h4
+  | .esc c :: items, i, acc, hw, hd => by
+    simp only [List.all_cons, Bool.and_eq_true, QItem.wf, bne_iff_ne, ne_eq] at hw
+    simp only [renderItems, QItem.render, List.cons_append, List.nil_append] at hd
+    obtain ⟨h1, h2⟩ := getElem?_of_drop hd
+    obtain ⟨h3, h4⟩ := getElem?_of_drop h2
+    have hb : ('\\' != q) = true := by simpa using fun e => hq e.symm
+    have hc1 : (c != q) = true := by simpa using hw.1
+    have e : (renderItems q (.esc c :: items)).length + t.length =
+        (((renderItems q items).length + t.length) + 1) + 1 := by
+      simp [renderItems, QItem.render]; omega
+    rw [e, quotedLoop, h1]
+    simp only [hb, if_true, Bool.not_false, Bool.true_and, beq_self_eq_true]
+    rw [quotedLoop, h3]
+    simp only [hc1, if_true, Bool.not_true, Bool.false_and, Bool.false_eq_true, if_false]
+    exact quotedLoop_unterminated q hq src t ht items (i + 1 + 1) _ hw.2 h4
+
+theorem extractValue_unterminated (q : Char) (hq : q = '"' ∨ q = '\'') (items : List QItem) (t : Str)
+    (ht : t = [] ∨ t = ['\\']) (m : Map) (lk : Env) (hw : items.all (QItem.wf q) = true) :
+    extractValue (q :: (renderItems q items ++ t)) m lk = .ok (.error .unterminated) := by
+  have hqb : q ≠ '\\' := by rcases hq with rfl | rfl <;> decide
+  have hqp : quotePrefix (q :: (renderItems q items ++ t)) = some q := by
+    rcases hq with rfl | rfl <;> simp [quotePrefix]
+  unfold extractValue
+  rw [hqp]
+  simp only
+  have hlen : (q :: (renderItems q items ++ t)).length - 1 = (renderItems q items).length + t.length := by
+    simp
+  rw [hlen, quotedLoop_unterminated q hqb _ t ht items 1 [] hw (by simp)]
+  simp only
+  rw [sliceTo_le (valEndIndex_le _)]
+
+/-- an assignment whose value opens a quote that is never closed -/
+theorem parseLoop_unterminated (f : Nat) (indent : Str) (exp : Option Str) (key ws1 : Str) (sep : Sep) (ws2 : Str)
+    (q : Char) (hq : q = '"' ∨ q = '\'') (items : List QItem) (t : Str) (ht : t = [] ∨ t = ['\\'])
+    (m : Map) (lk : Env)
+    (hi : nbAll indent = true) (he : expOk exp = true) (hk : validKey key = true) (h1 : nbAll ws1 = true)
+    (h2 : nbAll ws2 = true) (hw : items.all (QItem.wf q) = true) :
+    parseLoop (f + 1) (indent ++ (renderExp exp ++ (key ++ (ws1 ++ sep.char :: (ws2 ++ q :: (renderItems q items ++ t)))))) m lk =
+      .err .unterminated m := by
+  rw [parseLoop_assign_core f indent exp key ws1 sep _ m lk hi he hk h1]
+  rw [dropWhile_append_all _ (fun x hx => List.all_eq_true.mp h2 x hx)]
+  have hnb : isSpaceNB q = false := by rcases hq with rfl | rfl <;> decide
+  rw [dropWhile_head_neg hnb, extractValue_unterminated q hq items t ht m lk hw]
+
+/-! ## B.12 invalid keys -/
+
+/-- characters the key scanner steps over -/
+def okChar (c : Char) : Bool := isKeyRune c || isSpaceNB c
+/-- characters the key scanner rejects -/
+def badChar (c : Char) : Bool := !isKeyRune c && !isSpaceNB c && c != '=' && c != ':' && c != '\n'
+
+theorem scanKey_ok : ∀ (K r : Str) (i : Nat), K.all okChar = true → scanKey (K ++ r) i = scanKey r (i + K.length)
+  | [], r, i, _ => rfl
+  | c :: K, r, i, h => by
+    simp only [List.all_cons, Bool.and_eq_true, okChar, Bool.or_eq_true] at h
+    have step : scanKey (c :: (K ++ r)) i = scanKey (K ++ r) (i + 1) := by
+      rcases h.1 with hk | hs
+      · have h1 := key_not_spaceNB hk
+        have h2 := key_not_delim hk
+        simp only [scanKey, h1, h2.1, h2.2, hk, Bool.false_eq_true, if_false, if_true]
+      · simp only [scanKey, hs, if_true]
+    rw [List.cons_append, step, scanKey_ok K r (i + 1) (by simpa [okChar] using h.2)]
+    simp only [List.length_cons]; congr 1; omega
+
+theorem scanKey_bad (c : Char) (r : Str) (i : Nat) (h : badChar c = true) : scanKey (c :: r) i = .bad := by
+  simp only [badChar, Bool.and_eq_true, Bool.not_eq_true', bne_iff_ne, ne_eq] at h
+  obtain ⟨⟨⟨⟨h1, h2⟩, h3⟩, h4⟩, h5⟩ := h
+  have e1 : (c == '=' || c == ':') = false := by simp [h3, h4]
+  have e2 : (c == '\n') = false := by simp [h5]
+  simp only [scanKey, h2, e1, e2, h1, Bool.false_eq_true, if_false]
+
+theorem badChar_not_spaceU {c : Char} (h : badChar c = true) : isSpaceU c = false := by
+  simp only [badChar, Bool.and_eq_true, Bool.not_eq_true', bne_iff_ne, ne_eq] at h
+  obtain ⟨⟨⟨⟨_, h2⟩, _⟩, _⟩, h5⟩ := h
+  cases hs : isSpaceU c with
+  | false => rfl
+  | true =>
+    simp only [isSpaceU, Bool.or_eq_true, beq_iff_eq] at hs
+    simp only [isSpaceNB, Bool.or_eq_false_iff, beq_eq_false_iff_ne, ne_eq] at h2
+    rcases hs with (((((((e | e) | e) | e) | e) | e) | e) | e) <;> simp_all
+
+/-- a key text with a character outside the key alphabet is rejected -/
+theorem parseLoop_badkey (f : Nat) (indent : Str) (exp : Option Str) (pre : Str) (c : Char) (rest : Str) (m : Map) (lk : Env)
+    (hi : nbAll indent = true) (he : expOk exp = true) (hpre : pre.all okChar = true)
+    (hlead : pre.dropWhile isSpaceNB = pre) (hexp : exportKw.isPrefixOf pre = false)
+    (hc : badChar c = true) (hhash : pre ≠ [] ∨ c ≠ '#') :
+    parseLoop (f + 1) (indent ++ (renderExp exp ++ (pre ++ c :: rest))) m lk = .err .unexpectedChar m := by
+  have hcU := badChar_not_spaceU hc
+  have hcK : isKeyRune c = false := by
+    simp only [badChar, Bool.and_eq_true, Bool.not_eq_true'] at hc; exact hc.1.1.1.1
+  have hcNB : isSpaceNB c = false := by
+    simp only [badChar, Bool.and_eq_true, Bool.not_eq_true'] at hc; exact hc.1.1.1.2
+  -- the first character of the key text
+  have hhead : ∃ d Y, pre ++ c :: rest = d :: Y ∧ isSpaceU d = false ∧ d ≠ '#' ∧ isSpaceNB d = false := by
+    cases pre with
+    | nil =>
+      refine ⟨c, rest, rfl, hcU, ?_, hcNB⟩
+      rcases hhash with h | h
+      · exact absurd rfl h
+      · exact h
+    | cons d pre =>
+      have hd : isSpaceNB d = false := by
+        cases hs : isSpaceNB d with
+        | false => rfl
+        | true =>
+          rw [List.dropWhile_cons_of_pos hs] at hlead
+          have := (List.dropWhile_suffix (l := pre) isSpaceNB).length_le
+          rw [hlead] at this; simp at this; omega
+      simp only [List.all_cons, Bool.and_eq_true, okChar, Bool.or_eq_true] at hpre
+      have hk : isKeyRune d = true := by
+        rcases hpre.1 with h | h
+        · exact h
+        · rw [hd] at h; cases h
+      refine ⟨d, pre ++ c :: rest, rfl, key_not_spaceU hk, ?_, hd⟩
+      intro e; subst e; revert hk; decide
+  obtain ⟨d, Y, hY, hdU, hdH, hdNB⟩ := hhead
+  have hdrop : dropExport (renderExp exp ++ (pre ++ c :: rest)) = pre ++ c :: rest := by
+    cases exp with
+    | none =>
+      simp only [renderExp, List.nil_append]
+      unfold dropExport
+      by_cases hp : exportKw.isPrefixOf (pre ++ c :: rest) = true
+      · rcases isPrefixOf_append_split exportKw pre (c :: rest) hp with h1 | ⟨x, hx, hm⟩
+        · rw [h1] at hexp; cases hexp
+        · simp at hx; subst hx
+          have := exportKw_key _ hm
+          rw [hcK] at this; cases this
+      · rw [if_neg hp]
+    | some ws =>
+      simp only [renderExp, List.append_assoc]
+      apply dropExport_export ws _ he
+      rw [hY]; exact dropWhile_head_neg hdNB
+  have hstart : stmtL false (indent ++ (renderExp exp ++ (pre ++ c :: rest))) = renderExp exp ++ (pre ++ c :: rest) := by
+    rw [stmtL_skip_ws _ _ (nbAll_spaceU hi)]
+    cases exp with
+    | some ws =>
+      simp only [renderExp, exportKw, List.cons_append]
+      exact stmtL_stop _ (by decide) (by decide)
+    | none =>
+      simp only [renderExp, List.nil_append]
+      rw [hY]; exact stmtL_stop _ hdU hdH
+  have hne : (renderExp exp ++ (pre ++ c :: rest)).isEmpty = false := by
+    rw [hY]; cases exp <;> simp [renderExp, exportKw]
+  rw [parseLoop, stmtStart_eq _ _ (Nat.lt_succ_self _)]
+  simp only
+  rw [hstart, hne]
+  simp only [Bool.false_eq_true, if_false]
+  have hloc : locateKey (renderExp exp ++ (pre ++ c :: rest)) = .ok (.error .unexpectedChar) := by
+    unfold locateKey
+    rw [hdrop]
+    simp only
+    rw [scanKey_ok pre _ 0 hpre, scanKey_bad c rest _ hc]
+    simp only
+    cases hs : splitNL (pre ++ c :: rest) with
+    | nil => exact absurd hs (splitNL_ne_nil _)
+    | cons a b => rfl
+  rw [hloc]
+
 end CV.Dotenv
